@@ -437,7 +437,8 @@ func (c *compiler) findTypedef(y *Type, parent Definition, qualifiedIdent string
 				// issue #50 - submodules can reference types in parent and in any
 				// other submodule w/o prefix
 				if m, isModule := p.(*Module); isModule && m.belongsTo != nil {
-					p = m.Parent().(Definition)
+					// (a submodule loaded on its own has no module to continue in)
+					p, _ = m.Parent().(Definition)
 				}
 			}
 		}
